@@ -36,14 +36,15 @@ def compact(n):
     return U(n).replace(' ', '')
 
 
-def shape(tpl, fname, choose=None):
+def shape(tpl, fname, choose=None, unroll=None, on_iteration=None):
     fn = tpl.fn(fname)
-    lines = MT.skeleton(fn, choose=choose)
+    lines = MT.skeleton(fn, choose=choose, unroll=unroll, on_iteration=on_iteration)
     src, table = MT.skeleton_source(lines)
     mod = cy2ast.cy_string_to_ast(REPO, src, '%s:%s' % (TPL, fname))
     for n in ast.walk(mod):
         ln = getattr(n, 'lineno', None)
         if ln and 1 <= ln <= len(lines):
+            n.sline = ln
             n.tline = lines[ln - 1].tline or 0
     for n in ast.walk(mod):
         if hasattr(n, 'tline'):
@@ -290,6 +291,65 @@ def rule_top(chk, tpl):
         gl = [l for l in lines if any(compact(x.iter) == 'enumerate(helper.object.mega_groups)' for x in l.loops)]
         if not gl:
             bad_conf.setdefault('groups-in-order', []).append((label, 'groups are not emitted by iterating mega_groups in order'))
+    # (d) a sequence of sub-groups: each is wrapped by its own condition only - state of the template (indent level) must not leak from one sub-group into the next
+    seq_bad = []
+    nseq = 0
+    for first_c, second_c in itertools.product([True, False], repeat=2):
+        state = {'k': 0}
+
+        def on_it(loop, k, state=state):
+            if compact(loop.iter) == 'enumerate(group.data)':
+                state['k'] = k
+
+        def choose2(test, state=state, first_c=first_c, second_c=second_c):
+            t = U(test)
+            if t == 'sub_group.condition is not None':
+                return first_c if state['k'] == 0 else second_c
+            if t in ('group.has_subgroups', 'len(group.data) > 0'):
+                return True
+            if t in tests:
+                return False
+            return 'use_openmp' not in t
+        nseq += 1
+        try:
+            lines2, table2, mod2 = shape(tpl, '__template__', choose2, unroll={'enumerate(group.data)': 2}, on_iteration=on_it)
+        except cy2ast.FrontEndError as e:
+            seq_bad.append(((first_c, second_c), 'emitted text is not valid Cython: %s' % str(e)[-100:]))
+            continue
+        fn2 = M.find_func(M.find_class(mod2, 'AccelerationEval'), 'compute')
+        M.set_parents(fn2)
+        dg, cds = [], []
+        for s_ in ast.walk(fn2):
+            if isinstance(s_, (ast.Expr, ast.If)):
+                tgt = s_.value if isinstance(s_, ast.Expr) else s_.test
+                ph = phase_of(table2, tgt)
+                if ph and ph[0] == 'do_group' and U(ph[3].args[1]) == 'sub_group':
+                    dg.append(s_)
+                if ph and ph[0] == 'condition' and U(ph[3].args[0]) == 'sub_group' and isinstance(s_, ast.If):
+                    cds.append(s_)
+        order = sorted(dg, key=lambda x: getattr(x, 'sline', 0))
+        if len(order) != 2 or len(cds) != int(first_c) + int(second_c):
+            seq_bad.append(((first_c, second_c), 'expected two sub-group bodies and %d condition tests, found %d and %d' % (int(first_c) + int(second_c), len(order), len(cds))))
+            continue
+
+        def wrappers(node):
+            out = []
+            cur = getattr(node, 'parent', None)
+            while cur is not None and cur is not fn2:
+                if isinstance(cur, ast.If) and any(cur is c for c in cds):
+                    out.append(cur)
+                cur = getattr(cur, 'parent', None)
+            return out
+        w0, w1 = wrappers(order[0]), wrappers(order[1])
+        if len(w0) != int(first_c) or len(w1) != int(second_c) or (w0 and w1 and w0[0] is w1[0]):
+            seq_bad.append(((first_c, second_c), 'with (first sub-group conditional, second conditional) = (%s, %s) the bodies are wrapped by %d and %d sub-group conditions: '
+                            'a sub-group that follows a conditional sibling runs (or not) under the sibling\'s condition' % (first_c, second_c, len(w0), len(w1))))
+    if seq_bad:
+        chk.violated('top-level-structure', 'subgroup-sequence', node=None, file=TPL, func='AccelerationEval.compute', line=0,
+                     detail='%d of %d sequences, e.g. %s' % (len(seq_bad), nseq, seq_bad[0][1]))
+    else:
+        chk.holds('top-level-structure', 'subgroup-sequence', file=TPL, func='AccelerationEval.compute',
+                  detail='two consecutive sub-groups, all 4 combinations of conditional / unconditional: each body under its own condition only')
     chk.unit('template configurations enumerated', nconf)
     chk.floor('template configurations', nconf, 64)
     for rule in ('emitted-text-not-valid-cython', 'condition-wraps-group', 'iteration-wraps-group', 'subgroups', 'plain-group', 'groups-in-order'):
@@ -430,6 +490,60 @@ def rule_helpers(chk):
     ok = apps.get('dest_list') == 'dest' and apps.get('all_equations') == 'equation' and apps.get('eqs_with_no_source') == 'equation' and \
         apps.get('sources[src]') == 'equation'
     chk.decide(ok, 'regrouping-preserves-order', 'append-only', node=md, file=AE, func='MegaGroup._make_data', detail_bad=str(apps), detail_ok=str(apps))
+    # provenance of the three per-destination containers: each is filled while walking the user's list in order
+    M.set_parents(md)
+    orig = [compact(a.value) for a in ast.walk(md) if isinstance(a, ast.Assign) and compact(a.targets[0]) == 'equations']
+    store = [a for a in ast.walk(md) if isinstance(a, ast.Assign) and isinstance(a.targets[0], ast.Subscript) and isinstance(a.value, ast.Tuple) and len(a.value.elts) == 3]
+    okp = len(store) == 1 and orig == ['group.equations']
+    why = 'per-destination triple not found'
+    if okp:
+        names = []
+        for el in store[0].value.elts:
+            names.append(compact(el.args[0]) if isinstance(el, ast.Call) and el.args else compact(el))
+        nos, srcs, alle = names
+        for cont, label in ((alle, 'all equations of the destination'), (nos, 'equations without sources')):
+            aps = [c for c in M.calls(md) if isinstance(c.func, ast.Attribute) and c.func.attr in ('append', 'extend', 'insert') and compact(c.func.value) == cont]
+            for c in aps:
+                lp = M.enclosing(c, (ast.For,))
+                if c.func.attr != 'append' or lp is None or compact(lp.iter) != 'equations' or [compact(x) for x in c.args] != [compact(lp.target)]:
+                    okp = False
+                    why = 'the list of %s is not filled by appending the loop variable of `for ... in equations` (line %d): the order the user listed is lost' % (label, c.lineno)
+            if not aps:
+                okp = False
+                why = 'the list of %s is never appended to' % label
+    chk.decide(okp, 'regrouping-preserves-order', 'containers-filled-in-listed-order', node=md, file=AE, func='MegaGroup._make_data', detail_bad=why,
+               detail_ok='all_equations and eqs_with_no_source appended from `for equation in equations`')
+    # an equation with sources is filed under each of its sources unless it has no pair code at all
+    ns = [i for i in ast.walk(md) if isinstance(i, ast.If) and 'no_source' in compact(i.test)]
+    okn = len(ns) == 1
+    whyn = 'the no_source test vanished'
+    if okn:
+        t = ns[0].test
+        extra = [v for v in (t.values if isinstance(t, ast.BoolOp) and isinstance(t.op, ast.Or) else [t]) if compact(v) != 'equation.no_source']
+        if isinstance(t, ast.BoolOp) and not isinstance(t.op, ast.Or):
+            okn, whyn = False, 'sourced equations are filed by `%s`' % compact(t)
+        for v in extra:
+            # an extra way into the no-source bucket must rule out every hook that is called per source
+            hooks = set()
+            scope = [v]
+            for c in M.calls(v):
+                nm = M.call_name(c) or ''
+                if nm.startswith('self.'):
+                    f2 = [f for f in ast.walk(ae) if isinstance(f, ast.FunctionDef) and f.name == nm[5:]]
+                    scope += f2
+            for sc_ in scope:
+                for c in M.calls(sc_):
+                    if M.call_name(c) in ('hasattr', 'getattr') and len(c.args) >= 2 and isinstance(c.args[1], ast.Constant):
+                        hooks.add(c.args[1].value)
+            missing = sorted(set(['loop', 'loop_all', 'initialize_pair']) - hooks)
+            if missing:
+                okn, whyn = False, ('equations with sources are also filed as source-less when `%s`, which does not look at %s: their %s is then never called for any source'
+                                    % (compact(v), missing, '/'.join(missing)))
+        body_ok = any(isinstance(l, ast.For) and compact(l.iter) == 'equation.sources' for l in ns[0].orelse)
+        if okn and not body_ok:
+            okn, whyn = False, 'a sourced equation is not filed under every one of equation.sources'
+    chk.decide(okn, 'regrouping-preserves-order', 'sourced-equations-reach-their-sources', node=ns[0] if ns else md, file=AE, func='MegaGroup._make_data',
+               detail_bad=whyn, detail_ok='no_source -> source-less bucket; otherwise one entry per source')
     first = [i for i in ast.walk(md) if isinstance(i, ast.If) and compact(i.test) == 'destnotindest_list']
     chk.decide(bool(first), 'regrouping-preserves-order', 'destinations-by-first-appearance', node=md, file=AE, func='MegaGroup._make_data',
                detail_bad='destinations are not collected in order of first appearance', detail_ok='if dest not in dest_list: append')
